@@ -22,11 +22,19 @@ e = gen.build(d)
 m = make_machine(S)
 print('expression :', e)
 print('state      :', dict((str(k), str(v)) for k, v in list(m.pool.pool_id.items()) + [(x[0], x[1]) for x in m.pool.pool_mem.values()]))
+e_arg = gen.build(d)
 try:
-    r = m.eval_expr(gen.build(d), {})
+    r = m.eval_expr(e_arg, {})
 except Exception as ex:
     print('eval_expr raised %%r' %% (ex,)); sys.exit(1 if %(expect_raise)r else 3)
 print('evaluated  :', r, type(r).__name__)
+if %(frame)r:
+    bad = gen.undesc(e_arg) != d
+    if bad: print('the argument was modified in place: now', e_arg)
+    for (leaf, b, v) in m._verif_held:
+        if gen.undesc(v) != b:
+            bad = True; print('the state value of', gen.dstr(leaf), 'was modified in place:', gen.dstr(b), 'became', v)
+    sys.exit(1 if bad else 0)
 if %(must_be_int)r and type(r).__name__ != 'ExprInt':
     print('all inputs are constants but the result is not a constant'); sys.exit(1)
 if val is None:
@@ -50,10 +58,15 @@ def make_machine(S):
     from bounded import gen
     from miasmx.expression.expression_eval_abstract import eval_abs
     vars = {}
+    held = []
     for leaf, b in S:
-        vars[gen.build(leaf)] = gen.build(b)
+        v = gen.build(b)
+        vars[gen.build(leaf)] = v
+        held.append((leaf, b, v))
     import logging
-    return eval_abs(vars, log=logging.getLogger('verif.null'))
+    m = eval_abs(vars, log=logging.getLogger('verif.null'))
+    m._verif_held = held         # the value objects handed to the machine (frame clause: evaluation must not modify them)
+    return m
 
 def subst_state(S, cst):
     """concrete state sigma o S"""
@@ -120,8 +133,18 @@ def states_for(d, rng, n_mixed):
             if w == 1:
                 return ('op', '^', (('id', 'x1_0', 1), ('int', 1, 1)))
             return ('op', '+', (('id', 'x%d_0' % w, w), ('int', w, 1)))
+        if kind == 'slices':
+            # the value a register has after byte-wise stores and a wide load: adjacent slices of one symbol, concatenated
+            sp = [x for x in gen.compose_splits(w) if len(x) >= 2]
+            if not sp:
+                return ('id', 'x%d_0' % w, w)
+            split = sp[j % len(sp)]
+            pos, slots = 0, []
+            for n in split:
+                slots.append((('slice', ('id', 'x%d_0' % w, w), pos, pos + n), pos, pos + n)); pos += n
+            return ('compose', tuple(slots))
     out = [()]
-    for kind in ('const', 'sym', 'comp'):
+    for kind in ('const', 'sym', 'comp', 'slices'):
         out.append(tuple((l, binding(l, kind, i)) for i, l in enumerate(ids + mems)))
     out.append(tuple((l, binding(l, 'const', i + 3)) for i, l in enumerate(ids + mems)))
     for k in range(n_mixed):
@@ -147,14 +170,16 @@ def check(d, S, timeout_ms=10000):
     signal.signal(signal.SIGALRM, _alarm)
     signal.alarm(5)
     wit = {'desc': d, 'state': S, 'val': None, 'raise': False, 'int': False}
+    e_arg = gen.build(d)
     try:
-        r = m.eval_expr(gen.build(d), {})
+        r = m.eval_expr(e_arg, {})
     except _Timeout:
         # a second, patient attempt on a fresh machine and tree before non-termination is claimed
         m = make_machine(S)
+        e_arg = gen.build(d)
         signal.alarm(common.patience(60))
         try:
-            r = m.eval_expr(gen.build(d), {})
+            r = m.eval_expr(e_arg, {})
             signal.alarm(0)
         except _Timeout:
             return ('failed', 'terminates', 'eval_expr did not return within %d s' % common.patience(60), dict(wit, **{'raise': True}))
@@ -165,6 +190,12 @@ def check(d, S, timeout_ms=10000):
         return ('failed', 'noraise', 'eval_expr raised %s: %s' % (type(ex).__name__, str(ex)[:100]), dict(wit, **{'raise': True}))
     finally:
         signal.alarm(0)
+    # frame: eval_expr reads its argument and the state; neither may be modified (memo flags aside)
+    if gen.undesc(e_arg) != d:
+        return ('failed', 'frame', 'eval_expr modified its argument in place: now %s' % e_arg, dict(wit, frame=True))
+    for (leaf, b, v) in getattr(m, '_verif_held', []):
+        if gen.undesc(v) != b:
+            return ('failed', 'frame', 'eval_expr modified the value bound to %s in the state: %s became %s' % (gen.dstr(leaf), gen.dstr(b), v), dict(wit, frame=True))
     # sigma o S as a symbolic state
     st = D.State()
     try:
@@ -323,7 +354,7 @@ def main(argv):
                 run.ob(oid, FAILED, 'SMT-shape', 'z3', detail=detail, witness={'desc': repr(wit and wit['desc'])}, confirmed=True, func='eval_expr')
                 continue
             script = REPLAY % dict(verif=common.VERIF, repo=common.REPO, desc=wit['desc'], state=wit['state'], val=wit['val'],
-                                   expect_raise=wit['raise'], must_be_int=wit['int'])
+                                   expect_raise=wit['raise'], must_be_int=wit['int'], frame=wit.get('frame', False))
             rp = run.write_replay(oid, {'obligation': oid, 'detail': detail}, script)
             rc, outp = common.native_run(rp, timeout=60)
             if rc == 1:
